@@ -42,6 +42,23 @@ func lockCall(info *types.Info, s ast.Stmt) (mutex string, op string, deferred b
 		call, _ = s.X.(*ast.CallExpr)
 	case *ast.DeferStmt:
 		call, deferred = s.Call, true
+	case *ast.IfStmt:
+		// `if !X.TryLock() { …; return … }`: behind the statement X is held (an acquisition that
+		// never waits)
+		if s.Init != nil || s.Else != nil || len(s.Body.List) == 0 {
+			return "", "", false
+		}
+		if _, isRet := s.Body.List[len(s.Body.List)-1].(*ast.ReturnStmt); !isRet {
+			return "", "", false
+		}
+		if u, ok := s.Cond.(*ast.UnaryExpr); ok && u.Op == token.NOT {
+			call, _ = u.X.(*ast.CallExpr)
+		}
+		if call != nil {
+			if sel, ok := call.Fun.(*ast.SelectorExpr); !ok || (sel.Sel.Name != "TryLock" && sel.Sel.Name != "TryRLock") {
+				return "", "", false
+			}
+		}
 	}
 	if call == nil || len(call.Args) != 0 {
 		return "", "", false
@@ -51,7 +68,10 @@ func lockCall(info *types.Info, s ast.Stmt) (mutex string, op string, deferred b
 		return "", "", false
 	}
 	switch sel.Sel.Name {
-	case "Lock", "RLock":
+	case "Lock", "RLock", "TryLock", "TryRLock":
+		if _, isIf := s.(*ast.IfStmt); !isIf && (sel.Sel.Name == "TryLock" || sel.Sel.Name == "TryRLock") {
+			return "", "", false // result ignored: not a pattern this classifier knows
+		}
 		op = "lock"
 	case "Unlock", "RUnlock":
 		op = "unlock"
